@@ -2455,7 +2455,7 @@ class FileReadDataSegment(DataSegment):
         if init_reverse:
             init_slice = _reverse_slice(init_slice)
 
-        pixel_per_row = 1 if self.formatted_ndim == 1 else int(numpy.prod(self.raw_shape[1:]))
+        pixel_per_row = 1 if self.raw_ndim == 1 else int(numpy.prod(self.raw_shape[1:]))
         row_stride = self.raw_dtype.itemsize*pixel_per_row
 
         start_row = init_slice.start
